@@ -101,15 +101,23 @@ def main():
              "saw only the property text.", "",
              "| seeded change | property | baseline tests | detected by (tier) | first report |", "|---|---|---|---|---|"]
     missed = []
+    unclaimed = []
     for res in results:
         det = ", ".join("%s (%s)" % (p, c["tier"]) for p, c in res["checks"].items() if c["exit"] == 1) or "**not detected**"
         if "not detected" in det:
             missed.append(res["id"])
         first = next((c["first"] for c in res["checks"].values() if c["exit"] == 1), "")
+        meta = json.load(open(os.path.join(SEEDED, res["id"], "meta.json")))
+        if "not detected" in det and meta.get("not_claimed"):
+            det = "not detected - deliberately not claimed"
+            first = meta["not_claimed"]
+            missed.pop()
+            unclaimed.append(res["id"])
         lines.append("| %s | %s | %s | %s | %s |" % (res["id"], res["property"], res.get("tests", "patch does not apply"), det,
-                                                   first.replace("|", "/")[:160]))
-    lines += ["", "%d changes, %d detected, %d not detected%s." % (len(results), len(results) - len(missed), len(missed),
-                                                                 (": " + ", ".join(missed)) if missed else "")]
+                                                   first.replace("|", "/")[:160 if "not claimed" not in det else 600]))
+    lines += ["", "%d changes, %d detected, %d deliberately not claimed%s, %d not detected%s."
+              % (len(results), len(results) - len(missed) - len(unclaimed), len(unclaimed), (" (" + ", ".join(unclaimed) + ")") if unclaimed else "",
+                 len(missed), (": " + ", ".join(missed)) if missed else "")]
     open(os.path.join(SEEDED, "REPORT.md"), "w").write("\n".join(lines) + "\n")
     print("\n".join(lines[-1:]))
 
